@@ -6,6 +6,10 @@
 //! environment variable `VERIF_C31_CASE` (`index:delay_ms,index:delay_ms,...`,
 //! several cases separated by `;` of which the first one is taken); the
 //! test entry point `verif::c31` replaces it for every case it runs.
+//! `VERIF_C31_SCRIPT` optionally gives, per case (`;` separated, an empty
+//! item = the default), the order of the storage calls: `a<index>` appends
+//! the entry, `c<index>` commits up to the index, `w` waits until every
+//! entry committed so far has been executed.
 
 use std::collections::HashMap;
 use std::sync::Mutex;
@@ -29,6 +33,24 @@ fn cases() -> Vec<Vec<(u64, u64)>> {
         .split(';')
         .map(parse_case)
         .filter(|case| !case.is_empty())
+        .collect()
+}
+
+#[cfg(test)]
+fn scripts() -> Vec<Vec<(char, u64)>> {
+    std::env::var("VERIF_C31_SCRIPT")
+        .unwrap_or_default()
+        .split(';')
+        .map(|script| {
+            script
+                .split(',')
+                .filter_map(|item| {
+                    let item = item.trim();
+                    let op = item.chars().next()?;
+                    Some((op, item[1..].trim().parse().unwrap_or_default()))
+                })
+                .collect()
+        })
         .collect()
 }
 
@@ -60,7 +82,8 @@ pub(crate) async fn delay(index: u64) {
 /// builds the server database, the cluster log, the database pool and
 /// the cluster (storage) in a fresh temporary directory, appends one
 /// `UserAdd` entry per scheduled index (in increasing index order),
-/// commits all of them with ONE `commit` call and prints
+/// commits all of them with ONE `commit` call (or follows the case's
+/// script of appends and commits, see `VERIF_C31_SCRIPT`) and prints
 ///
 /// `ORDER <case> <indexes in the order the executions were notified>`
 /// `EFFECT <case> <indexes in the order their users were inserted>`
@@ -75,6 +98,8 @@ async fn c31() -> crate::server_error::ServerResult<()> {
     use crate::raft::Storage;
 
     crate::password::init(None);
+
+    let scripts = scripts();
 
     for (case_no, case) in cases().into_iter().enumerate() {
         let directory =
@@ -100,27 +125,50 @@ async fn c31() -> crate::server_error::ServerResult<()> {
             let mut raft = cluster.raft.write().await;
             let mut executed = raft.storage.subscribe().await;
 
-            for index in &indexes {
-                raft.storage
-                    .append(
-                        Log {
-                            db_id: None,
-                            index: *index,
-                            term: 1,
-                            data: ClusterAction::UserAdd(UserAdd {
-                                user: format!("user{index}"),
-                                password: vec![*index as u8],
-                                salt: vec![1],
-                            }),
-                        },
-                        None,
-                    )
-                    .await?;
+            let mut script = scripts.get(case_no).cloned().unwrap_or_default();
+
+            if script.is_empty() {
+                script = indexes.iter().map(|index| ('a', *index)).collect();
+                script.push(('c', indexes.last().copied().unwrap_or_default()));
             }
 
-            raft.storage
-                .commit(indexes.last().copied().unwrap_or_default())
-                .await?;
+            let mut committed = 0;
+
+            for (op, index) in script {
+                match op {
+                    'a' => {
+                        raft.storage
+                            .append(
+                                Log {
+                                    db_id: None,
+                                    index,
+                                    term: 1,
+                                    data: ClusterAction::UserAdd(UserAdd {
+                                        user: format!("user{index}"),
+                                        password: vec![index as u8],
+                                        salt: vec![1],
+                                    }),
+                                },
+                                None,
+                            )
+                            .await?;
+                    }
+                    'c' => {
+                        raft.storage.commit(index).await?;
+                        committed = indexes.iter().filter(|i| **i <= index).count();
+                    }
+                    _ => {
+                        while order.len() < committed {
+                            match tokio::time::timeout(Duration::from_secs(60), executed.recv())
+                                .await
+                            {
+                                Ok(Ok(index)) => order.push(index),
+                                _ => break,
+                            }
+                        }
+                    }
+                }
+            }
 
             while order.len() < indexes.len() {
                 match tokio::time::timeout(Duration::from_secs(60), executed.recv()).await {
